@@ -16,8 +16,8 @@ struct CellSpec { int mesh; int type; int history; };      // history: 0 none, 1
 struct Case { std::vector<CellSpec> cells; int xform; int writer; int ids = 0; /* 1: persistent ids 2*position+1, as after removals and divisions */ };   // writer 0 = mesh_writer::write, 1 = write_cell_data_file(path, cells, rebase=true)
 
 static std::vector<sc::Mesh> g_meshes;
-static const int NS = 6;
-static const double XS[NS] = {1.0, -1.0, 1e-6, 1e5, 1e-42, 1e39};   // length units from far below to far above what single precision can represent
+static const int NS = 8;
+static const double XS[NS] = {1.0, -1.0, 1e-6, 1e5, 1e-42, 1e39, 1e-101, 1e101};   // the last two: three-digit decimal exponents (the longest tokens the coordinate format produces)   // length units from far below to far above what single precision can represent
 static sc::Mesh placed(const sc::Mesh& m, int xform, int slot) { // slot separates the cells of one population
     double s = XS[xform % NS]; std::array<double, 9> R = sc::ID3; if (s < 0) { R = {-1, 0, 0, 0, -1, 0, 0, 0, -1}; s = 1; }
     bool mixed = xform >= NS; std::array<double, 3> t = {(mixed ? -1.75 : 0.0) + 3.0 * slot, mixed ? 0.625 : 0.0, mixed ? -2.5 : 0.0};
